@@ -338,14 +338,21 @@ def signer_answer_keeps_signatures(ex, what):
     ex.prefer_int()
     kind, how = what.rsplit("_", 1)
     d8 = ex.int("delta8", 1, 255)
-    pos = ex.int("pos", 0, 63)
-    sig = ex.bytes("sig", 64)
     tap = kind != "ecdsa"
+    pos = ex.int("pos", 0, 63 if tap else 31)
+    sig = ex.bytes("sig", 64)
     spk = (b"\x51\x20" + _G) if tap else _SPK
     leaf_key = _G + b"\x42" * 32
     pin = PsbtIn(previous_tx_id=_PREV.id, output_index=0, sequence=0xFFFFFFFD, witness_utxo=TxOut(5000, spk, check_validity=False), check_validity=False)
+    def der(s32):      # a strict DER signature whose r is the generator's x (a valid x-coordinate) and whose s is the 32 symbolic octets
+        return b"\x30\x44\x02\x20" + _G + b"\x02\x20" + s32 + b"\x01"
     if kind == "ecdsa":
-        pin.partial_sigs = {_PUBS[0]: b"\x30" + sig + b"\x01"}
+        if not ex.concrete:
+            ex.assume(sand(sig[0] >= 1, sig[0] <= 0x7F))
+        elif not 1 <= sig[0] <= 0x7F:
+            from sx.api import AssumeFailed
+            raise AssumeFailed("s would not be minimally encoded")
+        pin.partial_sigs = {_PUBS[0]: der(sig[:32])}
     elif kind == "tapkey":
         pin.taproot_key_spend_signature = sig
     else:
@@ -360,7 +367,7 @@ def signer_answer_keeps_signatures(ex, what):
         flipped = SymBytes([ite(pos == j, sig[j] ^ d8, sig[j]) for j in range(64)])
     new = {"kept": sig, "dropped": None, "changed": flipped, "emptied": b""}[how]
     if kind == "ecdsa":
-        i.partial_sigs = {} if new is None else {_PUBS[0]: (b"\x30" + new + b"\x01") if how != "emptied" else b""}
+        i.partial_sigs = {} if new is None else {_PUBS[0]: der(new[:32]) if how != "emptied" else b""}
     elif kind == "tapkey":
         i.taproot_key_spend_signature = b"" if new is None else new
     else:
